@@ -37,6 +37,8 @@ def grace_key():
 
 def classify(rec):
     """Key of a property failure: names the input class, because known findings suppress by key."""
+    if "lookup" in rec:
+        return "closewrite-not-found-on-a-connection-a-tunnel-writes-to"
     p = rec["params"]
     if rec.get("forced"):
         # the known finding covers exactly the scenarios built to outlast the grace period
@@ -89,6 +91,8 @@ def refusal(ctx, shard, kind, i):
 
 
 def size_of(rec):
+    if "lookup" in rec:
+        return len(rec.get("tree", ""))
     return sum(rec["params"]["len"]) + rec.get("events", 0)
 
 
@@ -183,7 +187,7 @@ def run(ctx):
             ob_failed.append("harness failed: " + out[-800:])
         else:
             meta = json.load(open(os.path.join(ctx.work, "meta.json")))
-            for k in ("ccases", "acases", "ncases"):
+            for k in ("ccases", "acases", "ncases", "lcases"):
                 recs[k] = load_jsonl(os.path.join(ctx.work, k + ".jsonl"))
             res = ctx.coq_eval_shards(GROUP, ctx.work, meta["shards"], timeout=600)
             for shard, lg in res["_errors"]:
@@ -196,6 +200,23 @@ def run(ctx):
                         rec = recs[kind][base + i]
                         rec["_loc"] = (shard, kind, i)
                         acc.append(rec)
+
+    # ---- the CloseWrite-lookup differential (Lookup.v) has its own records
+    lk_prop = [r for r in prop_bad if "lookup" in r]
+    lk_model = [r for r in model_bad if "lookup" in r]
+    prop_bad = [r for r in prop_bad if "lookup" not in r]
+    model_bad = [r for r in model_bad if "lookup" not in r]
+    if lk_prop:
+        rec = min(lk_prop, key=size_of)
+        ctx.violation(classify(rec), {"lookup": {k: rec[k] for k in rec if k != "_loc"}}, True,
+                      "reflectx.LookupImpl[closeWriter] does not find CloseWrite on %d connection shape(s) a tunnel writes to: %s"
+                      % (len(lk_prop), rec["lookup"]))
+    elif lk_model:
+        rec = min(lk_model, key=size_of)
+        ctx.violation("closewrite-lookup-model-differs", {"lookup": {k: rec[k] for k in rec if k != "_loc"},
+                      "unchecked": "correspondence model(g03 Lookup.v)/implementation (utils/reflectx.LookupImpl)"}, False,
+                      "%d value(s) on which the real lookup and its model disagree; smallest: %s found=%s tree=%s"
+                      % (len(lk_model), rec["lookup"], rec["found"], rec["tree"][:200]))
 
     # ---- a failure that involves very few scenarios is re-run alone before it is reported: the scenarios
     # run 16 at a time on loopback and depend on timing; one that cannot be reproduced in three solo runs is
@@ -305,6 +326,7 @@ def run(ctx):
         "distribution": meta.get("distribution"),
         "events_recorded": meta.get("events"),
         "payload_bytes": meta.get("payload_bytes"),
+        "closewrite_lookup_values_compared": meta.get("closewrite_lookup_cases"),
         "max_copier_read_observed": meta.get("max_read_observed"),
         "copy_buf_len_observed": meta.get("copy_buf_len_observed"),
         "fd_before_after": [meta.get("fd_before"), meta.get("fd_after")],
